@@ -340,12 +340,9 @@ class LDMService:
             list of list of data objects. Each list of data objects is ordered according to the order specified in the data_request object.
         """
         try:
-            if data_request.filter is None:
-                search_result = self.ldm_maintenance.get_all_data_containers()
-            else:
-                search_result = self.ldm_maintenance.search_data_containers(
-                    data_request
-                )
+            search_result = self.ldm_maintenance.search_data_containers(
+                data_request
+            )
         except (KeyError, json.decoder.JSONDecodeError) as e:
             print(f"Error querying data container: {str(e)}")
             return ()
